@@ -94,7 +94,7 @@ func (lc *litCtx) goLit(x *Term, t types.Type) string {
 		return lc.typeStr(t) + "{" + strings.Join(es, ", ") + "}"
 	case *types.Slice:
 		es := lc.sliceElems(x, u.Elem())
-		if len(es) == 0 {
+		if len(es) == 0 && SliceIsNil(x).IsTrue() {
 			return lc.typeStr(t) + "(nil)"
 		}
 		return lc.typeStr(t) + "{" + strings.Join(es, ", ") + "}"
@@ -149,6 +149,9 @@ func govcDump(v reflect.Value) string {
 		}
 		return s + ")"
 	case reflect.Array, reflect.Slice:
+		if v.Kind() == reflect.Slice && v.IsNil() {
+			return "nil"
+		}
 		s := "["
 		for i := 0; i < v.Len(); i++ {
 			if i > 0 {
